@@ -231,12 +231,22 @@ def _once(ctx):
     safe = ctx.repo.func('ChunkParser.parse_safe')
     ext = [norm(c) for c in walk_local(safe.node) if isinstance(c, ast.Call) and isinstance(c.func, ast.Attribute)
            and c.func.attr == 'extend']
-    ctx.check(len(ext) == len(set(ext)) and 'parent.tract_components.extend(self.tract_components)' in ext, 'ONCE',
-              'parse_safe hands each staged list to the parent exactly once',
-              detail_bad=f"hand-offs: {ext}", key="ONCE|parse_safe|once")
-    # nobody else extends the parent's tract_components
+    dup = len(ext) != len(set(ext))
+    ctx.tri(not dup and 'parent.tract_components.extend(self.tract_components)' in ext, dup, 'ONCE',
+            'parse_safe hands each staged list to the parent exactly once',
+            detail_bad=f"hand-offs: {ext}", key="ONCE|parse_safe|once")
+    # nobody else extends the parent's tract_components (helpers that only
+    # parse_safe calls are part of parse_safe)
+    part_of_safe = {'ChunkParser.parse_safe'}
+    for c in walk_local(safe.node):
+        if isinstance(c, ast.Call) and (dotted(c.func) or '').startswith('self.'):
+            nm_ = dotted(c.func).split('.')[-1]
+            callers = {f.qualname for f in ctx.repo.funcs.values() for x in ast.walk(f.node)
+                       if isinstance(x, ast.Call) and (dotted(x.func) or '').split('.')[-1] == nm_}
+            if callers <= {'ChunkParser.parse_safe'}:
+                part_of_safe.add(f"ChunkParser.{nm_}")
     for fi in ctx.repo.funcs.values():
-        if fi.module.name.endswith('plss_parse') and fi.qualname != 'ChunkParser.parse_safe':
+        if fi.module.name.endswith('plss_parse') and fi.qualname not in part_of_safe:
             for c in walk_local(fi.node):
                 if isinstance(c, ast.Call) and isinstance(c.func, ast.Attribute) and c.func.attr in ('extend', 'append') \
                         and norm(c.func.value) in ('parent.tract_components', 'self.parent.tract_components'):
